@@ -198,6 +198,16 @@ void for_each_n(TaskSetT& tasks, Iter start, size_t n, F&& f, ForEachOptions opt
   // Reduce threads used if they exceed work to be done.
   numThreads = std::min<ssize_t>(numThreads, n);
 
+  if (numThreads <= 0) {
+    // Zero-thread pool and wait == false: nobody but the caller can run the work (and
+    // staticChunkSize requires at least one chunk), so run serially here.
+    for (size_t i = 0; i < n; ++i) {
+      f(*start);
+      ++start;
+    }
+    return;
+  }
+
   auto chunking = detail::staticChunkSize(n, numThreads);
   size_t chunkSize = chunking.ceilChunkSize;
 
